@@ -231,3 +231,57 @@ func ruleF9(c *an.Ctx) {
 	}
 	c.Floor("F9", "fork metadata objects that receive _errors from mrp", n, 2)
 }
+
+// F10: a split that is submitted again discards what an abandoned attempt left behind.  On
+// re-attach Fork.updateId loads Fork.stageDefs and Fork.chunks from whatever `_stage_defs` is on
+// disk - also from a split that wrote it and then failed.  doChunks builds the chunk list only when
+// it is empty (premise, re-established on every run).  If doSplit submits the split again without
+// clearing the list, the chunks of the failed attempt are reused: with 2 old chunks and 3 new ones
+// only 2 run and the restarted pipestance completes with a wrong result.
+// Rule: every path from the entry of Fork.doSplit to a call of Node.runSplit stores into Fork.chunks.
+func ruleF10(c *an.Ctx) {
+	p := c.P
+	doSplit := c.NeedFunc(pkgCore, "(*Fork).doSplit")
+	doChunks := c.NeedFunc(pkgCore, "(*Fork).doChunks")
+	runSplit := c.NeedFunc(pkgCore, "(*Node).runSplit")
+	chunks := p.Field(pkgCore, "Fork", "chunks")
+	if doSplit == nil || doChunks == nil || runSplit == nil || chunks == nil {
+		return
+	}
+	premise := false
+	for _, m := range familyOf(p, doChunks, 2) {
+		for _, b := range m.Blocks {
+			for _, s := range b.Succs {
+				if an.EdgeHolds(b, s, func(r an.Rel) bool {
+					args, ok := an.IsBuiltinCall(r.X, "len")
+					return ok && an.LoadsField(args[0], chunks) && an.IsIntConst(r.Y, 0)
+				}) {
+					premise = true
+				}
+			}
+		}
+	}
+	if !premise {
+		c.Info("F10", "premise(chunks-built-only-when-list-empty)", doChunks.Pos(), "doChunks no longer decides by len(Fork.chunks): rule not applicable")
+		return
+	}
+	n := 0
+	for _, m := range familyOf(p, doSplit, 2) {
+		for _, cs := range callsTo(m, runSplit) {
+			n++
+			in := cs.(ssa.Instruction)
+			w := an.Query{Fn: m, Target: func(x ssa.Instruction) bool { return x == in },
+				Barrier: func(x ssa.Instruction) bool {
+					st, ok := x.(*ssa.Store)
+					if !ok {
+						return false
+					}
+					_, f := an.FieldOfAddr(st.Addr)
+					return f == chunks
+				}}.Find()
+			c.Check("F10", "resubmitted-split-discards-old-chunk-list@"+an.FnName(m), in.Pos(), w == nil,
+				"the split job is submitted without Fork.chunks having been reset: doChunks builds the chunk list only when it is empty, so chunks loaded at re-attach from the `_stage_defs` of a split that failed afterwards are reused and the new split's chunks are never created; "+c.WitnessString(w))
+		}
+	}
+	c.Floor("F10", "submissions of the split job", n, 1)
+}
